@@ -335,6 +335,9 @@ class _:
             ("start-row-discarded-iff", (n.self.g_lo != s.g_lo) == d_start),
             ("end-untouched-when-kept", z3.Implies(keep_single, z3.And(n.self.end == s.end, n.self.rows.len == 1))),
             ("end-row-discarded-only-if-overhanging", z3.Implies(n.self.g_hi != s.g_hi, z3.And(z3.Not(keep_single), s.end - s.bait.end > e))),
+            # the same rule at the other end, applied to what is left after the start row went (nothing, if it was the only row)
+            ("end-row-discarded-iff", (n.self.g_hi != s.g_hi) == z3.And(z3.Not(keep_single), z3.Not(z3.And(d_start, s.rows.len == 1)),
+                                                                        s.end - s.bait.end > e, end_overlap(s) < e)),
             ("same-list", n.self.rows.same(s.rows)),
             ("bait", n.self.bait.z == s.bait.z),
         ]
